@@ -41,6 +41,17 @@ func swarm(seed uint64, idx int) SimParams {
 	return sp
 }
 
+// withPCT turns a swarm member into a priority-based schedule search (simrt.PCTSource). Strict priorities
+// starve a task that spins on another task's progress for fairK decisions per hand-over, so PCT is only
+// used for workloads whose tasks block (locks, channels, sleeps) rather than spin.
+func withPCT(sp SimParams, seed uint64, idx int) SimParams {
+	r := simrt.NewRng(simrt.Mix(seed, uint64(idx), 0x9c7))
+	sp.PCTDepth = 1 + r.Intn(3)
+	sp.PCTHorizon = []int{30, 300, 3000}[r.Intn(3)]
+	sp.ClockJumps = false
+	return sp
+}
+
 func runSeed(seed uint64, idx int) uint64 { return simrt.Mix(seed, uint64(idx), 0xabcdef) }
 
 // sweep generates every single-deviation run of a cell: the default schedule
